@@ -323,6 +323,43 @@ func callSitesOf(p *Program, fn *ssa.Function) []ssa.CallInstruction {
 				}
 			case *ssa.MakeClosure:
 				// captured by another local closure that calls it
+			case *ssa.Return:
+				// handed back to the callers of the parent (`return f, func() { … }, nil`): its call
+				// sites are where they call what they were handed
+				par := fn.Parent()
+				if par == nil || par.Parent() != nil {
+					return nil
+				}
+				for i, rv := range x.Results {
+					if rv != ssa.Value(mc) {
+						continue
+					}
+					for _, cs2 := range p.callersOf(par) {
+						call, ok := cs2.(*ssa.Call)
+						if !ok || !p.InZap(cs2.Parent()) {
+							return nil
+						}
+						ex := extractOf(call, i)
+						if ex == nil {
+							continue
+						}
+						for _, cs3 := range callSites(cs2.Parent()) {
+							if v := cs3.Common().Value; v != nil && (v == ex || resolveLoad(v) == ex) {
+								sites = append(sites, cs3)
+							}
+						}
+						// … also from closures of that caller
+						for _, g := range p.ZapFuncs {
+							if g.Parent() != nil && rootParent(g) == cs2.Parent() {
+								for _, cs3 := range callSites(g) {
+									if v := cs3.Common().Value; v != nil && resolveLoadDeep(v) == ex {
+										sites = append(sites, cs3)
+									}
+								}
+							}
+						}
+					}
+				}
 			default:
 				return nil
 			}
